@@ -24,7 +24,12 @@ echo "== demo with the change" >> $LOG
 rundemo >> $LOG 2>&1; B=$?
 echo "exit=$B" >> $LOG
 echo "== full unit suite with the change" >> $LOG
-/venv/bin/python -m pytest -q -p no:cacheprovider -n ${NP:-12} --timeout=900 mistral/tests/unit 2>&1 | tail -5 >> $LOG
+/venv/bin/python -m pytest -q -p no:cacheprovider -n ${NP:-12} --timeout=900 mistral/tests/unit 2>&1 | tail -8 >> $LOG
+FAILED=$(grep '^FAILED mistral' $LOG | awk '{print $2}' | sort -u)
+if [ -n "$FAILED" ]; then
+  echo "== re-running the failed tests serially (timing-sensitive tests flake under load)" >> $LOG
+  /venv/bin/python -m pytest -q -p no:cacheprovider --timeout=900 $FAILED 2>&1 | tail -4 >> $LOG
+fi
 cd / && git -C /repo worktree remove --force $WT
 echo "SUMMARY demo_original_exit=$A demo_changed_exit=$B" >> $LOG
 grep -E "passed|failed" $LOG | tail -3
